@@ -3,6 +3,7 @@
 package tcell
 
 import (
+	"sort"
 	"syscall/js"
 )
 
@@ -318,7 +319,31 @@ func H19_key() {
 	if meta {
 		wm |= ModMeta
 	}
-	switch vsymChoice("kind", 4) {
+	switch vsymChoice("kind", 5) {
+	case 4: // Ctrl + character: the "Ctrl-x" rows of the key table (letters in either case)
+		var names []string
+		for n := range WebKeyNames {
+			if len(n) == 6 && n[:5] == "Ctrl-" {
+				names = append(names, n)
+			}
+		}
+		sort.Strings(names)
+		n := names[vsymChoice("ctrlkey", len(names))]
+		ch := n[5]
+		if ch >= 'a' && ch <= 'z' && vsymChoice("upper", 2) == 1 {
+			ch -= 0x20
+		}
+		vsymNote("key", "Ctrl+"+string([]byte{ch}))
+		js.Global().Call("onKeyEvent", string([]byte{ch}), false, false, true, false)
+		vsymAssert(s.HasPendingEvent(), "a Ctrl+character callback yields an event")
+		if s.HasPendingEvent() {
+			e, ok := s.PollEvent().(*EventKey)
+			want := WebKeyNames[n]
+			if n[5] >= 'a' && n[5] <= 'z' {
+				vsymAssert(want == KeyCtrlA+Key(n[5]-'a'), "the table maps Ctrl-letter to the Ctrl-letter key")
+			}
+			vsymAssert(ok && e.Key() == want && e.Modifiers() == ModCtrl, "Ctrl+character maps to the key the table gives for it, with Ctrl")
+		}
 	case 0:
 		k := h19Keys[vsymChoice("key", len(h19Keys))]
 		vsymNote("key", k.name)
